@@ -274,10 +274,98 @@ def check_fresh_domain(ctx, site, when):
                         f"{when}: an untyped domain parsed afterwards reports types {sorted(u.types)}")
 
 
+SHIPPED_DIRS = ["multi_agent_problem", "blocks_ma_problem", "another_multi_agent_problem"]
+
+
+def run_fixture(ctx, cfg, ops, f):
+    """a multi-agent directory shipped with the repository, copied into the scratch tree: the combination must be the
+    union of the reference readings of its files, for several discovery orders, and survive export / re-parse"""
+    import glob as _glob
+    import os
+    from pddl_plus_parser.multi_agent import MultiAgentDomainsConverter, MultiAgentProblemsConverter
+    name = SHIPPED_DIRS[cfg.draw(len(SHIPPED_DIRS))]
+    src = os.path.join(os.environ.get("VERIF_REPO", "/repo"), "tests", "multi_agent_tests", name)
+    ddir = ctx.dir("shipped")
+    files, pfiles = [], []
+    try:
+        for path in sorted(_glob.glob(src + "/*.pddl")):
+            with fs._real_open(path, "r", encoding="utf-8") as fh:
+                txt = fh.read()
+            fs.write_real(ddir / os.path.basename(path), txt)
+            if os.path.basename(path).startswith("domain-"):
+                files.append(pddl_reader.read_domain_text(txt))
+        union = union_vocab(files)
+        for path in sorted(_glob.glob(src + "/problem-*.pddl")):
+            with fs._real_open(path, "r", encoding="utf-8") as fh:
+                pfiles.append(pddl_reader.read_problem_text(fh.read(), union))
+    except (pddl_reader.Unsupported, sexpr.Reject, KeyError, IndexError, ValueError):
+        ctx.probes["fixture_unsupported"] += 1
+        raise Skip()
+    if any(a.get("pre_single_literal") for F in files for a in F["actions"].values()):
+        # ':precondition (p ...)' without 'and' is outside the fragment the domain parser supports (it raises or drops
+        # the literal: parse fidelity, C01); such a directory is no workload for the union property
+        ctx.probes["fixture_outside_supported_fragment"] += 1
+        raise Skip()
+    ctx.profile = "shipped-directory"
+    ctx.probes["fixture_directory"] += 1
+    ctx.log("fixture", name)
+    ctx.nontrivial = True
+    ctx.sample = {"shipped_directory": name, "agent_files": len(files)}
+
+    class _W:
+        D = {"name": files[0]["name"]}
+    conv = MultiAgentDomainsConverter(ddir)
+    first = None
+    for o in range(3):
+        if o:
+            ctx.new_epoch()
+        try:
+            comb = conv.locate_domains()
+        except Exception as e:
+            raise Violation("C17/combine-raised", "locate_domains", f"{name}: {type(e).__name__}: {e}")
+        w = walker.w_domain(comb)
+        check_union(ctx, w, union, _W, False, f"{name}, discovery order #{o}")
+        key = (c08.vocab(w), {a: G.canon_action(v) for a, v in w["actions"].items()})
+        if first is None:
+            first = key
+        elif key != first:
+            raise Violation("C17/order-dependent", "locate_domains", f"{name}: discovery order #{o} differs")
+    out = ctx.dir("out")
+    try:
+        path = conv.export_combined_domain(output_folder=out)
+        ctx.new_epoch()
+        d2 = L().DomainParser(path).parse_domain()
+    except Exception as e:
+        raise Violation("C17/combined-export-rejected", "export_combined_domain -> DomainParser",
+                        f"{name}: {type(e).__name__}: {e}")
+    check_union(ctx, walker.w_domain(d2), union, _W, False, f"{name}, re-parsed combined export")
+    # problems: union of objects, facts, fluents, goals
+    P = {"objects": {}, "facts": set(), "fluents": {}, "goal": []}
+    for pf in pfiles:
+        P["objects"].update(pf["objects"])
+        P["facts"] |= set(pf["facts"])
+        P["fluents"].update(pf["fluents"])
+        P["goal"] += [g for g in pf["goal"]]
+        if pf["goal_num"]:
+            ctx.probes["fixture_numeric_goals"] += 1
+
+    class _WP:
+        pass
+    _WP.P = P
+    try:
+        cp = MultiAgentProblemsConverter(ddir, "problem").combine_problems(path)
+    except Exception as e:
+        raise Violation("C17/combine-problems-raised", "combine_problems", f"{name}: {type(e).__name__}: {e}")
+    check_problem_union(ctx, cp, walker.w_problem(cp), _WP, f"{name}")
+    ctx.steps += 4
+
+
 def run(ctx):
     cfg = ctx.s("cfg")
     ops = ctx.s("ops")
     f = ctx.s("fs")
+    if cfg.draw(150 if ctx.tier == "quick" else 40) == 0:
+        return run_fixture(ctx, cfg, ops, f)
     feat = C.draw_features(ctx)
     feat["max_actions"] = 2 + cfg.draw(3)
     feat["cond_numeric"] = False  # exporting conditions through the simplifying printers is C08's recorded finding
